@@ -189,31 +189,9 @@ def r16_2(cx):
         table = 'remap_unanchored' if f == 'start_unanchored_id' else 'remap_anchored'
         ok = len(vs) == 1 and is_call(vs[0], r'Index::index$') and is_var(peel(vs[0][2][0]), table) and vs[0][2][1][0] == 'f' and vs[0][2][1][2] == f
         cx.report('R16.2', bb, 'special:' + f, ok, 'special.%s = %s[old.%s]' % (f, table, f) if ok else 'DFA (both starts) special.%s is assigned %s' % (f, [tstr(v, 80) for v in vs]))
-    bo = cx.body('dfa::Builder::finish_build_one_start')
-    got = {}
-    for bi, si, tt, v, s in bo.field_stores():
-        if tt[0] == 'f' and tt[2] in FIELDS:
-            got.setdefault(tt[2], []).append(v)
-    for f in FIELDS:
-        vs = got.get(f, [])
-        okv = True
-        for v in vs:
-            if is_named_const(v, r'DFA::DEAD$'):
-                continue
-            okv = okv and is_call(v, r'Fn::call$') and is_var(peel(v[2][0]), 'old2new') and f in tstr(v[2][1]) and tstr(v[2][1]).count('_id') == 1
-        ok = okv and len(vs) in (1, 2)
-        cx.report('R16.2', bo, 'special:' + f, ok, 'special.%s = old2new(old.%s) (or DEAD for the unsupported start)' % (f, f) if ok else 'DFA (one start) special.%s is assigned %s' % (f, [tstr(v, 80) for v in vs]))
-    # old2new = sid << stride2 with the DFA's own stride2
-    c = [x for p, x in cx.facts.bodies.items() if p.startswith('dfa::Builder::finish_build_one_start::{closure#') and not any(cp['name'] == 'anchored' for cp in x.j.get('captures', []))]
-    ok = False
-    if c:
-        t = strip_convs(expand_vars(c[0], c[0].local_term(0, expand=True)))
-        ok = is_call(t, r'StateID::new_unchecked$') and t[2][0][0] == 'op' and t[2][0][1] == 'Shl' and 'stride2' in tstr(t[2][0][3]) and 'as_usize' in tstr(t[2][0][2])
-    cx.report('R16.2', bo, 'old2new', ok, 'old2new(sid) = sid << stride2' if ok else 'old2new is not a shift by stride2')
-    sl = bo.locals_named('stride2')
-    d = bo.def_term(sl[0]) if sl else None
-    ok = d is not None and tstr(d) == 'dfa.stride2'
-    cx.report('R16.2', bo, 'stride2-source', ok, 'stride2 is the DFA\'s own stride2' if ok else 'stride2 = %s' % (tstr(d) if d else None))
+    from rules.dfabuild import r16_2_one_start, r_one_start_closure
+    r16_2_one_start(cx)
+    r_one_start_closure(cx, ids=('R16.2',))
     from rules.trie import r16_2_shuffle
     r16_2_shuffle(cx)
     co = cx.body("nfa::noncontiguous::Compiler::<'a>::compile")
